@@ -629,4 +629,7 @@ func main() {
 	writeIfChanged(filepath.Join(outdir, "GoAstStreams.v"), genGoAst(pkgs, astStreams))
 	writeIfChanged(filepath.Join(outdir, "GoAstSend.v"), genGoAst(pkgs, astSend))
 	writeIfChanged(filepath.Join(outdir, "GoAstSign.v"), genGoAst(pkgs, astSign))
+	writeIfChanged(filepath.Join(outdir, "GoAstDearmor.v"), genGoAst(pkgs, astDearmor))
+	writeIfChanged(filepath.Join(outdir, "GoAstFrame.v"), genGoAst(pkgs, astFrame))
+	writeIfChanged(filepath.Join(outdir, "GoAstOpen.v"), genGoAst(pkgs, astOpen))
 }
